@@ -767,6 +767,8 @@ def tasks(tier, seed):
         T.append(Task('vi_tab/cut/undiscounted/%s' % sk.name, h_vi_tab_cut, (sk, 'one', 100000), tier='B'))
     T.append(Task('rt/end-to-end', rt_end_to_end, (seed, 18 if tier == 'quick' else 90), tier='R', kind='rt',
                   note='un-stubbed ValueIteration (both versions) and PolicyIteration on concrete MDPs; contract clauses evaluated on floats'))
+    from specs import reuse as _reuse
+    T.append(Task('rt/object-reuse', _reuse.rt_planner_reuse, ('C01', ['ValueIteration', 'PolicyIteration'], seed), tier='R', kind='rt', note='planner objects, earlier results and model objects across calls'))
     return T
 
 
